@@ -429,10 +429,19 @@ def _prince_tally(ctx, rule):
     return c17.r4_prince_tally(ctx, rule)
 
 
+def r12_counts_per_training(ctx, rule):
+    """The counts written are those of THIS training: no trainer class keeps a mutable container at class level that its methods
+    fill in place (seed C06-k moved the five length-indexed tables of PCFGPasswordParser to the class body - the second training
+    of a process inherits the terminals and counts of the first)."""
+    from .common import no_shared_class_state
+    no_shared_class_state(ctx, rule, ['lib_trainer/'], 8, 'the object is shared by every instance: a second parser / trainer object '
+                          'of the same process starts with the counts of the first, so lists hold items the training set never had')
+
+
 def rules(tier):
     return [('C06.R1', r1_relative_frequency), ('C06.R2', r2_all_items_written), ('C06.R3', c07.r6_wipe_before_write),
             ('C06.R4', r4_coverage_algebra), ('C06.R5', r5_supported_only), ('C06.R6', r6_determinism),
-            ('C06.R7', c07.r1b_validate_final_value), ('C06.R8', r8_memo), ('C06.R9', r9_coverage_plumbing), ('C06.R10', _counters), ('C06.R11', _prince_tally)]
+            ('C06.R7', c07.r1b_validate_final_value), ('C06.R8', r8_memo), ('C06.R9', r9_coverage_plumbing), ('C06.R10', _counters), ('C06.R11', _prince_tally), ('C06.R12', r12_counts_per_training)]
 
 
 META = {
